@@ -207,6 +207,9 @@ class P:
                         col.stop(signal.SIGKILL); break
                     mode = MODES[(cyc + run) % 5]
                     shrink = (cyc % 3 == 2) and len(acked) > 0
+                    if shrink:
+                        # in such a life NOTHING new appears, not even in the traffic in flight: known exporters redefine their templates, that is all
+                        mode = ["steady", "idle", "late"][(cyc // 3 + run) % 3]
                     new = []
                     if shrink:
                         # 2a. a SHRINKING cache: every known exporter re-announces its template with a single field and nobody new
